@@ -51,13 +51,16 @@ def job(args):
                 stored = None if none_mode else (1 if xtype_mode else Tok(1, "stored-equal"))
                 attrs = {v: ({ATTR: stored} if p == "M" else ({ATTR: Tok(2, "stored-other")} if p == "N" else {})) for v, p in pat.items()}
                 sought = None if none_mode else (1.0 if xtype_mode else Tok(1, "sought"))
+                uid_mode = k % 13 == 6 and not none_mode and not xtype_mode and not classattr_mode
+                if uid_mode:
+                    attrs = {}      # the attribute is the built-in `uid` property: exactly the 'M' vertex (first in name order) carries the sought uid
                 if classattr_mode:
                     vcls = "ClassTagVert"
                     pat = {v: ("N" if p == "L" else p) for v, p in pat.items()}
                     attrs = {v: ({} if p == "M" else {ATTR: Tok(2, "stored-other")}) for v, p in pat.items()}
                 for tname, (mod, lst, gen, srch) in trav.TRAVS.items():
                     n += 1
-                    rec = dict(map={v: list(l) for v, l in nbmap.items()}, universe=members, trav=tname, search=srch, pattern=pat, vcls=vcls, sought_none=none_mode, mode=("sought-None" if none_mode else ("int-vs-float" if xtype_mode else ("class-level-attribute" if classattr_mode else "token"))))
+                    rec = dict(map={v: list(l) for v, l in nbmap.items()}, universe=members, trav=tname, search=srch, pattern=pat, vcls=vcls, sought_none=none_mode, mode=("sought-None" if none_mode else ("int-vs-float" if xtype_mode else ("class-level-attribute" if classattr_mode else ("uid-property" if uid_mode else "token")))))
                     try:
                         if tname not in listings:
                             V = th.setup(nbmap, members, "Vertex", None)
@@ -69,7 +72,13 @@ def job(args):
                             listings[tname] = listing
                         listing = listings[tname]
                         V = th.setup(nbmap, members, vcls, attrs)
-                        so = th.h.call(th.fn[srch], th.uni, V["a"], ATTR, sought)
+                        if uid_mode:
+                            target = next((v for v in sorted(pat) if pat[v] == "M"), None)
+                            pat = {v: ("M" if v == target else "N") for v in pat}
+                            uidv = V[target].fields.get("_uid") if target else Tok(77, "no-such-uid")
+                            so = th.h.call(th.fn[srch], th.uni, V["a"], "uid", uidv)
+                        else:
+                            so = th.h.call(th.fn[srch], th.uni, V["a"], ATTR, sought)
                     except Unknown as u:
                         rec.update(kind="nonterm" if "budget" in str(u) else "undecided", got=str(u))
                         recs.append(rec)
